@@ -50,7 +50,7 @@ package packet
 //@   ensures ret != nil
 
 //@ func (*sender).SendPackets$1
-//@   props C07 C12 C01
+//@   props C07 C12 C01 C16
 //@   observe Bytes, WritePacketData, FreeSerializeBuffer
 //@   loop 0 row cancel: [ctxdone ; close done ; close errc] -> exit
 //@   loop 0 row closed: [recv in as (pkt, false) ; close done ; close errc] -> exit
